@@ -62,8 +62,14 @@ impl From<std::io::Error> for MlarError {
 pub fn vfs_create_dir_all(p: &PathBuf) -> (r: std::io::Result<()>) { unimplemented!() }
 #[verifier::external_body]
 pub fn vfs_canonicalize(p: &PathBuf) -> (r: std::io::Result<PathBuf>) ensures r is Ok ==> r->Ok_0@ == canon(p@) && r->Ok_0.is_abs() { unimplemented!() }
-/// File::create: the CONTRACT the extractor must respect -- only beneath the output directory
+/// an existing symbolic link sits at this path (File::create would follow it: the file written is then the link's TARGET)
+pub uninterp spec fn is_symlink(p: Seq<Component>) -> bool;
+/// fs::symlink_metadata(p).is_ok_and(|md| md.file_type().is_symlink())   [rewrite R4]
+#[verifier::external_body]
+pub fn vfs_is_symlink(p: &PathBuf) -> (r: bool) ensures r == is_symlink(p@) { unimplemented!() }
+/// File::create: the CONTRACT the extractor must respect -- only beneath the output directory, and never THROUGH a symbolic link
+/// that already exists at the destination (the parent-directory test says nothing about where such a link leads)
 #[verifier::external_body]
 pub fn vfs_file_create(p: &PathBuf) -> (r: std::io::Result<File>)
-    requires creation_allowed(p@),
+    requires creation_allowed(p@), !is_symlink(p@),
 { unimplemented!() }
